@@ -6,8 +6,8 @@ import struct
 from . import sysmon
 from .. import refspec
 
-SAFETY_CALLS = 4_000_000
-SAFETY_JUMPS = 4_000_000
+SAFETY_CALLS = 400_000
+SAFETY_JUMPS = 400_000
 
 
 class Outcome:
